@@ -70,6 +70,68 @@ def c05(ctx):
     return ctx.finish("model_checking", sem.NONTRIV_RULE)
 
 
+@check("C06")
+def c06(ctx):
+    ctx.assumptions += TRUST
+    ctx.assumptions.append("Apalache 0.58 + Z3 for the unbounded-n lemmas (typed twin of Sem!Allot generated per portion vector)")
+    ctx.tlc_mc("AllotMC", "AllotMC_%s.cfg" % ctx.tier, label="C06_Sem: all portion vectors over small denominators x totals (design level)")
+    vecs = [([1, 2, 4], 7), ([1, 1], 2)] if ctx.tier == "quick" else \
+        [([1, 2, 4], 7), ([1, 1], 2), ([1, 1, 1], 3), ([15, 30, 55], 100), ([1, 999], 1000), ([0, 5, 0, 7], 12), ([3, 3, 3, 3, 4], 16), ([1, 59], 60)]
+    sem.allot_apalache(ctx, vecs)
+    n, b = scale(ctx, (3000, 6), (8000, 24))
+    sem.trace_batches(ctx, "allot", "MachineTrace_C06.cfg", n, b)
+    return ctx.finish("model_checking", "single-allotment sends (source side: each clause from its own unbounded-overdraft account; destination side: "
+                      "each clause to its own account or kept) with literal / percent / variable portions and optional remaining, totals 0..10^5; "
+                      "distinct = distinct (tree shape, outcome, number of postings); non-trivial = >= 2 postings or rejected sum")
+
+
+@check("C07")
+def c07(ctx):
+    ctx.assumptions += TRUST
+    ctx.build()
+    ctx.tlc_mc("Reconcile", "Reconcile_%s.cfg" % ctx.tier,
+               label="Reconcile.tla refines Sem!Pair: all sender/receiver lists up to the bound, kept anywhere (design level)")
+    # behaviour generation: every initial state of Reconcile.tla is printed by TLC and fed to the real interpreter.Reconcile
+    g = ctx.tlc("Reconcile", "Reconcile_gen_%s.cfg" % ctx.tier, workers=1, label="behaviour generation for interpreter.Reconcile")
+    if g["tlc_error"] or not g["finished"]:
+        raise Infra("generation failed: %s" % g["tlc_error"])
+    gens = [x[4:] for x in g["printed"] if x.startswith("GEN ")]
+    if not gens:
+        raise Infra("TLC generated no behaviours")
+    gp = os.path.join(ctx.work, "rec_in.ndjson")
+    open(gp, "w").write("\n".join(gens) + "\n")
+    op = os.path.join(ctx.work, "rec_out.ndjson")
+    summ = ctx.vh_json(["rec", gp, op])
+    r = ctx.tlc_trace("ReconcileTrace", "ReconcileTrace.cfg", op, label="judging interpreter.Reconcile on the generated lists")
+    ctx.cov["evaluations"] += summ["cases"]
+    ctx.cov["distinct_nontrivial"] += summ["nontrivial"]
+    ctx.cov["traces_validated_against_impl"] += summ["cases"]
+    ctx.cov["reconcile_lists_exhaustive"] = summ["cases"]
+    ctx.cov["samples"] += summ["samples"] or []
+    if r["viols"]:
+        recs = {x["id"]: x for x in __import__("vlib.core", fromlist=["read_ndjson"]).read_ndjson(op)}
+        seen = set()
+        for v in r["viols"]:
+            if v["what"] in seen:
+                continue
+            seen.add(v["what"])
+            rec = recs[v["id"]]
+            # confirm in a fresh process
+            cp = os.path.join(ctx.work, "c.ndjson")
+            open(cp, "w").write(json.dumps({"snd": rec["snd"], "rcv": rec["rcv"]}) + "\n")
+            ctx.vh_json(["rec", cp, cp + ".out"])
+            again = ctx.tlc_trace("ReconcileTrace", "ReconcileTrace.cfg", cp + ".out", label="confirmation")
+            if again["viols"]:
+                ctx.add_violation("C07 (direct call of interpreter.Reconcile): %s | senders=%s receivers=%s postings=%s" % (v["what"], rec["snd"], rec["rcv"], rec["post"]),
+                                  dict(kind="rec", property="C07", case={"snd": rec["snd"], "rcv": rec["rcv"]}, observed=rec["post"]))
+            else:
+                raise Infra("candidate did not reproduce")
+    n, b = scale(ctx, (2500, 4), (6000, 16))
+    sem.trace_batches(ctx, "pair", "MachineTrace_C07.cfg", n, b)
+    return ctx.finish("model_checking", "exhaustive: all sender/receiver lists up to the bound (Reconcile.tla initial states, equal sums) fed to interpreter.Reconcile; "
+                      "plus random whole sends of the 'pair' corpus judged on flow matrices; non-trivial = >= 2 postings")
+
+
 def replay(path):
     rp = json.load(open(path))
     prop = rp.get("property", "C00")
@@ -84,6 +146,17 @@ def replay(path):
                 print("VIOLATION property=%s replay=%s" % (prop, path))
                 for h in hits:
                     print("  ", h["what"])
+                return 1
+            print("not reproduced")
+            return 0
+        if rp["kind"] == "rec":
+            cp = os.path.join(ctx.work, "c.ndjson")
+            open(cp, "w").write(json.dumps(rp["case"]) + "\n")
+            ctx.vh_json(["rec", cp, cp + ".out"])
+            again = ctx.tlc_trace("ReconcileTrace", "ReconcileTrace.cfg", cp + ".out", label="replay")
+            print(open(cp + ".out").read())
+            if again["viols"]:
+                print("VIOLATION property=%s replay=%s" % (prop, path))
                 return 1
             print("not reproduced")
             return 0
